@@ -86,4 +86,19 @@ Section PlateauP.
     { eapply (first_le_last labmax labs 0 i0 i1 None F L). intros a Ha. discriminate. }
     split; [lia|]. exists labs, labmax. repeat split; assumption.
   Qed.
+  (* the sequence that is selected passed the size test (its bin centre exceeds the bin
+     size), unless the fallback label 5 was taken *)
+  Lemma select_spec : forall fuel counts labs bins iv st k,
+    select T ltb zero fuel counts labs bins iv st = Ok k ->
+    k = 5%nat \/
+    exists labid, first_index k labs 0 = Some labid /\
+                  ltb st (nth (nth labid bins 0%nat) iv zero) = true.
+  Proof.
+    induction fuel as [|f IH]; intros counts labs bins iv st k H; simpl in H.
+    - inversion H. left. reflexivity.
+    - destruct (first_index (argmax counts) labs 0) as [labid|] eqn:F; [|discriminate].
+      destruct (ltb st (nth (nth labid bins 0%nat) iv zero)) eqn:E.
+      + inversion H; subst k. right. exists labid. split; assumption.
+      + eapply IH. exact H.
+  Qed.
 End PlateauP.
